@@ -150,10 +150,26 @@ on_release (const void *p, size_t n, int kind)
       rel_where = w;
       rel_size = n;
     }
-  if (kind == 'r' && p == ra_watch && ra_watch_size > 0)
+  if ((kind == 'r' || kind == 'f') && p == ra_watch && ra_watch_size > 0)
     for (size_t i = 0; i < (size_t) ra_watch_size && i < n; i++)
       if (((const unsigned char *) p)[i])
         ra_release_dirty = 1;
+}
+
+/* request-time check: when the library first asks the allocator for memory during a crypt_ra call on an undersized
+   handle, that handle must already have been erased ("erases an undersized buffer before reallocating it") */
+static int ra_request_seen, ra_request_dirty;
+static void
+on_request (int kind, size_t n)
+{
+  (void) kind;
+  (void) n;
+  if (ra_request_seen || !ra_watch || ra_watch_size <= 0)
+    return;
+  ra_request_seen = 1;
+  for (size_t i = 0; i < (size_t) ra_watch_size; i++)
+    if (((const unsigned char *) ra_watch)[i])
+      ra_request_dirty = 1;
 }
 
 /* ---- the call, on its own stack --------------------------------------------------- */
@@ -180,6 +196,8 @@ runner (void *arg)
   vh_req_count = 0;
   vh_fail_at[0] = j->failmap;
   vh_on_release = on_release;
+  vh_on_request = on_request;
+  ra_request_seen = ra_request_dirty = 0;
   vh_seam_armed = 1;
   errno = 0;
   switch (j->ep)
@@ -196,6 +214,7 @@ runner (void *arg)
   j->err = errno;
   vh_seam_armed = 0;
   vh_on_release = 0;
+  vh_on_request = 0;
   vh_fail_at[0] = 0;
   j->isnull = r == 0;
   if (r)
@@ -234,8 +253,8 @@ stack_used (void)
 }
 
 /* ---- cases -------------------------------------------------------------------------- */
-enum { K_SUCCESS, K_METHOD_FAIL, K_BADCHAR, K_TOOLONG, K_UNKNOWN, K_MAPFAIL, K_SMALL_RA, NKIND };
-static const char *const kname[NKIND] = { "success", "method-level failure", "forbidden byte", "phrase too long", "unknown prefix", "mmap failure", "undersized crypt_ra block" };
+enum { K_SUCCESS, K_METHOD_FAIL, K_BADCHAR, K_TOOLONG, K_UNKNOWN, K_MAPFAIL, K_SMALL_RA, K_SMALL_RA_NOMEM, NKIND };
+static const char *const kname[NKIND] = { "success", "method-level failure", "forbidden byte", "phrase too long", "unknown prefix", "mmap failure", "undersized crypt_ra block", "undersized crypt_ra block, replacement allocation fails" };
 static const int plens[] = { 1, 7, 8, 9, 16, 55, 56, 64, 65, 100, 128, 199, 511 };
 static const char *const epname[] = { "crypt_rn", "crypt_r", "crypt_ra", "crypt_gensalt_rn(NULL)", "crypt_gensalt(NULL)", "crypt_gensalt_ra(NULL)" };
 
@@ -293,7 +312,7 @@ one_case (int m, int kind, int pli, int ep)
       free (phrase);
       return;
     }
-  if (kind == K_SMALL_RA && ep != 2)
+  if ((kind == K_SMALL_RA || kind == K_SMALL_RA_NOMEM) && ep != 2)
     {
       free (phrase);
       return;
@@ -311,7 +330,7 @@ one_case (int m, int kind, int pli, int ep)
   vh_ledger_reset ();
   if (ep == 2)
     {
-      if (kind == K_SMALL_RA)
+      if (kind == K_SMALL_RA || kind == K_SMALL_RA_NOMEM)
         {
           vh_seam_armed = 1;
           rad = malloc (200);
@@ -329,8 +348,8 @@ one_case (int m, int kind, int pli, int ep)
         }
     }
   ra_watch = rad;
-  ra_watch_size = kind == K_SMALL_RA ? rasz : 0;
-  struct job j = { ep, phrase, setting, D, &rad, &rasz, kind == K_MAPFAIL ? (ep == 2 ? 1 : 1) : 0, 0, 0, "", 0, 0 };
+  ra_watch_size = kind == K_SMALL_RA || kind == K_SMALL_RA_NOMEM ? rasz : 0;
+  struct job j = { ep, phrase, setting, D, &rad, &rasz, kind == K_MAPFAIL || kind == K_SMALL_RA_NOMEM ? 1 : 0, 0, 0, "", 0, 0 };
   wset_phrase ((const unsigned char *) phrase, pl);
   run_on_stack (&j);
   vh_stat ("evaluations", 1);
@@ -380,8 +399,12 @@ one_case (int m, int kind, int pli, int ep)
       w = rel_where;
       why = rel_kind == 'M' ? "passphrase material in a mapping at munmap time" : "passphrase material in a heap block at free/realloc time";
     }
-  if (!why && kind == K_SMALL_RA && ra_release_dirty)
+  if (!why && (kind == K_SMALL_RA || kind == K_SMALL_RA_NOMEM) && ra_release_dirty)
     why = "undersized crypt_ra block not erased before realloc";
+  if (!why && (kind == K_SMALL_RA || kind == K_SMALL_RA_NOMEM) && ra_request_dirty)
+    why = "undersized crypt_ra block not yet erased when its replacement was requested from the allocator";
+  if (!why && (kind == K_SMALL_RA || kind == K_SMALL_RA_NOMEM) && !ra_request_seen)
+    why = "crypt_ra on an undersized block made no allocator request";
   if (!why)
     for (int i = 0; i < vh_nledger; i++)
       if (vh_ledger[i].live && vh_ledger[i].p != rad && (enc = scan (vh_ledger[i].p, vh_ledger[i].n, &w)) >= 0)
